@@ -83,6 +83,33 @@ static void csv_case(size_t idx, const mj::Value& c, const char* flavour, bool t
         t.set("enc", enc_ok); t.set("text", jc::cps_of(text)); t.set("dec", dec); t.set("dev", c["dev"]);
         trace_line(t, c["dev"].size() > 0);
     }
+    // route 3: the same table written as rows (the column names as a first row of strings: every name is a field like any other, quoted
+    // where the options require it) and read back with the case's own options (assume_header + mapping): the header line may hold quoted
+    // names with delimiters, quotes and line breaks.  Not run where a name is empty or the case carries a deviation other than the raw header.
+    {
+        const std::string& h = c["o"]["header"].str(); const std::string& mp = c["o"]["mapping"].str();
+        bool run = h == "assume" && (mp == "n_objects" || mp == "m_columns") && c["names"].size() > 0;
+        for (size_t i = 0; run && i < c["names"].size(); ++i) if (c["names"][i].size() == 0) run = false;
+        if (run && c["o"]["ec"].as_int() != c["o"]["qc"].as_int())      // (a name holding the escape character meets the known escape-char-unescaped deviation of the field writer)
+            for (size_t i = 0; run && i < c["names"].size(); ++i) for (size_t k = 0; k < c["names"][i].size(); ++k) if (c["names"][i][k].as_int() == c["o"]["ec"].as_int()) run = false;
+        for (size_t i = 0; run && i < c["dev"].size(); ++i) if (c["dev"][i].str() != "header-unquoted") run = false;
+        if (run) {
+            ++nchecks;
+            Json table(json_array_arg);
+            { Json hr(json_array_arg); for (size_t i = 0; i < c["names"].size(); ++i) hr.push_back(Json(jc::cps_to_utf8(c["names"][i]))); table.push_back(std::move(hr)); }
+            for (size_t r = 0; r < c["rows"].size(); ++r) { Json row(json_array_arg); for (size_t k = 0; k < c["rows"][r].size(); ++k) row.push_back(jc::build_doc<Json>(c["rows"][r][k])); table.push_back(std::move(row)); }
+            csv::csv_options wopt = opt; wopt.assume_header(false).mapping_kind(csv::csv_mapping_kind::n_rows);
+            std::string text3;
+            try {
+                csv::encode_csv(table, text3, wopt);
+                Json d = csv::decode_csv<Json>(text3, opt);
+                mj::Value w = jc::doc_wire(d);
+                if (!(w == jc::canon_doc(c["doc"]))) { mj::Value m = hz::rec("mismatch"); m.set("idx", (int64_t)idx); m.set("flavour", flavour); m.set("route", "rows-with-header"); m.set("what", "roundtrip");
+                                                       m.set("got", w); m.set("text", jc::cps_of(text3)); m.set("case", c); hz::emit_mismatch(m); }
+            } catch (const std::exception& e) { mj::Value m = hz::rec("mismatch"); m.set("idx", (int64_t)idx); m.set("flavour", flavour); m.set("route", "rows-with-header"); m.set("what", "error");
+                                                 m.set("got", mj::Value(e.what())); m.set("text", jc::cps_of(text3)); m.set("case", c); hz::emit_mismatch(m); }
+        }
+    }
     // route 2: stream overloads
     ++nchecks;
     std::string text2;
